@@ -1,5 +1,6 @@
 import Driver.Util
 import Martian.Vdr
+import Martian.VdrFs
 
 /-! Line-protocol handler for properties C04 / C14 (the VDR model).
 
@@ -136,8 +137,33 @@ def showReport (r : KReport) : String :=
   toString r.stamp ++ "|" ++ toString r.count ++ "|" ++ toString r.size ++ "|" ++
   (if r.paths.isEmpty then "." else ",".intercalate (r.paths.map hexOfPath)) ++ "|" ++ showEvents r.events
 
+def parseFs (s : String) : Option (List FsEnt) :=
+  if s == "." then some [] else
+  (s.splitOn ";").mapM fun e =>
+    match e.splitOn ":" with
+    | [p, l] => do
+      let p ← pathOfHex p
+      let l ← if l == "~" then pure none else (pathOfHex l).map some
+      pure { path := p, link := l }
+    | _ => none
+
 def handle (op : String) (args : List String) : Option String :=
   match op, args with
+  | "clean", [p] => do
+    let p ← pathOfHex p
+    pure (hexOfPath (cleanAbs p))
+  | "insideraw", [t, p] => do
+    let t ← pathOfHex t
+    let p ← pathOfHex p
+    pure (boolStr (pathIsInsideRaw t p))
+  | "overlapclean", [ns, fs] => do
+    let ns ← pathList ns
+    let fs ← pathList fs
+    pure (boolStr (anyOverlap (ns.map cleanAbs) (fs.map cleanAbs)))
+  | "logical", [fs, name] => do
+    let fs ← parseFs fs
+    let name ← pathOfHex name
+    pure (showPaths (logicalNames fs name).eraseDups)
   | "inside", [t, p] => do
     let t ← pathOfHex t
     let p ← pathOfHex p
